@@ -259,6 +259,9 @@ def _object(draw, g: Gate, names: list[str], depth: int, self_name: str | None, 
 
 def _top_schema(draw, g: Gate, name: str, names: list[str], idx: int) -> dict:
     others = [n for n in names if n != name]
+    if name in SUFFIXED_SCHEMA_NAMES and "top_alias_prim" not in g.exclude and g.flag(draw, "suffixed_primitive_alias", 1, 2):
+        # a bare primitive alias (no enum, no description) under a name whose class gets a reserved-name suffix (Id -> Id_)
+        return {"type": draw(st.sampled_from(["string", "integer"]))}
     kind = g.pick(draw, [
         (None, "object"), (None, "object"), (None, "object"), (None, "object"),
         ("top_enum", "enum"), ("top_alias_prim", "alias_prim"), ("top_alias_array", "alias_array"), ("allof", "allof"),
